@@ -728,6 +728,10 @@ func (p *Parser) parseCallExpressionRest(expr Expression) Expression {
 		}
 
 		expr = p.parseMemberExpressionRest(expr)
+		// Must on same line (the member access above may have stopped at a line break)
+		if p.scanner.HasPrecedingLineBreak() {
+			break
+		}
 		if p.token() == SK_OpenParen {
 			var callExpr = new(CallExpression)
 			callExpr.Expression = expr
